@@ -74,6 +74,10 @@ impl Frame {
     }
 }
 
+pub fn has_nan_weight(g: &SGraph) -> bool {
+    g.edges.iter().any(|(_, _, w)| fl(*w).is_nan())
+}
+
 pub fn valid_bvrand(size: i32, sp: f32) -> bool {
     size >= 0 && sp >= 0.0 && sp <= 1.0
 }
@@ -351,7 +355,8 @@ pub fn frame(name: &str) -> Option<Frame> {
             &[Int, Float],
         ),
         "GRAPH.PRINT" => fr(&[(Graph, 1)], None, &[], &[Name]),
-        "GRAPH.PRINT*DIFF" => fr(&[(Graph, 2)], Some(|s| s.g[0] != s.g[1]), &[], &[Name]),
+        // NaN weights never compare equal: with one present the diff may or may not be empty
+        "GRAPH.PRINT*DIFF" => fr(&[(Graph, 2)], Some(|s| s.g[0] != s.g[1] || has_nan_weight(&s.g[0]) || has_nan_weight(&s.g[1])), &[], &[Name]),
         _ => return None,
     })
 }
